@@ -1,4 +1,5 @@
-/- Driver.C08 — stream `C08` (stub: replaced when the property's model is built). -/
+/- Driver.C08 — stream `C08`: the shared attribute-store wire format (Driver/AttrsWire.lean, model AHP/Model/Attrs.lean). -/
+import Driver.AttrsWire
 namespace Driver.C08
-def run (_payload : String) : String := "unimplemented"
+def run (payload : String) : String := Driver.AttrsWire.run payload
 end Driver.C08
